@@ -1,16 +1,17 @@
-SPECIFICATION Spec
+SPECIFICATION GenSpec
 CONSTANTS
   Svcs = {"a", "b", "c"}
   Cap = 2
-  MaxOps = 4
+  MaxOps = 6
   MaxFails = 2
   FixEnqueue = TRUE
   FixBatch = TRUE
-  LossySend = TRUE
+  LossySend = FALSE
   HasKeepalive = TRUE
-  DirectCalls = TRUE
-  MaxMsgLen = 1
+  DirectCalls = FALSE
+  MaxMsgLen = 3
   AsyncApply = FALSE
-INVARIANTS NotW7
+  Eager = TRUE
+
 
 CHECK_DEADLOCK FALSE
